@@ -3,12 +3,12 @@ COMMON = ["records are written by the harness from the real loader / runner; TLC
           "text-shaped inputs are token sequences rendered to YAML by the harness; the expected text is computed by the specification by concatenation"]
 PROPS = {
     "C20": dict(sub="conc", trace_spec="PCConfigTrace", prefix=["C20_"], start='"kind":',
-                models=[("PCConc", "PCConc_mc1.cfg"), ("PCConc", "PCConc_mc2.cfg"), ("PCConc", "PCConc_mc3.cfg")],
+                models=[("PCConc", "PCConc_mc%d.cfg" % k) for k in (1, 2, 3, 4, 5)],
                 rule="every pair (and seeded triples) of {state, states, project state, log range, log subscribe/unsubscribe, start, stop, restart, scale, update, info} "
                      "run concurrently for 250 ms against a live runner whose processes exit, restart and log; each batch in its own OS process; "
                      "recovered panics, fatal runtime errors of the batch process, calls in flight for more than 10 s and a shutdown / Run() that does not return are recorded",
                 assumptions=["data races as such are NOT decided here (see DESIGN.md section 7): only their crash / deadlock consequences are observable",
-                             "the lock model PCConc mirrors the order of lock acquisitions and waits of the API operations; it is explored exhaustively for three thread sets"]),
+                             "the lock model PCConc mirrors the order of lock acquisitions and waits of the API operations and process goroutines (hand-written from the code, bound to it only through the 'no call blocks' records); it is explored exhaustively for five thread sets with TLC's deadlock detection"]),
     "C06": dict(sub="osstop", trace_spec="PCConfigTrace", prefix=["C06_"], start='"kind":', model=("PCStop", "PCStop_mc.cfg"), needs_pcbin=True,
                 level="exploration",
                 rule="real bash process trees (parent / child / grandchild) whose members trap and log every signal; parameters: signal in {unset,1,2,10,15,31,32,-1}, "
